@@ -8,13 +8,14 @@ use schemars::JsonSchema;
 use serde::{Deserialize, Serialize};
 use thiserror::Error;
 
+#[cfg(not(feature = "verif-hooks"))]
+use std::collections::{HashMap, HashSet};
+use std::ops::Range;
+
 #[cfg(feature = "verif-hooks")]
 use crate::verif_hooks::SMap as HashMap;
 #[cfg(feature = "verif-hooks")]
 use crate::verif_hooks::VecSet as HashSet;
-#[cfg(not(feature = "verif-hooks"))]
-use std::collections::{HashMap, HashSet};
-use std::ops::Range;
 
 /// A pattern string or fix object to auto fix the issue.
 /// It can reference metavariables appeared in rule.
